@@ -145,6 +145,31 @@ void op_destroy(const Step& s) {
 	after_step(s, "bdd_destroy");
 }
 
+// SetStateFinal on one handle: copies share the transition table, their final sets are their own
+void op_final(const Step& s) {
+	bool bu = s.arg(1) & 1; size_t i = HI(s, 0, bu); Client& c = CL(s);
+	std::set<long> st = c.h[i].model.states(); if (st.empty()) throw Skip();
+	auto it = st.begin(); std::advance(it, long(mod(s.arg(2), st.size()))); long q = *it;
+	api_begin(); api_site(bu ? "bdd_final:bu" : "bdd_final:td");
+	if (bu) c.h[i].bu->SetStateFinal(StateType(q)); else c.h[i].td->SetStateFinal(StateType(q));
+	api_end();
+	c.h[i].model.finals.insert(q); c.h[i].origin = ++g_origin;      // no longer the same value as its copies (the table stays shared)
+	after_step(s, "bdd_final");
+}
+
+// dump to the text store: the only view of a BDD automaton is its dump, so what must come back is what the dump says
+void op_dump(const Step& s) {
+	bool bu = s.arg(1) & 1; size_t i = HI(s, 0, bu); Client& c = CL(s);
+	VATA::Serialization::TimbukSerializer ser;
+	api_begin(); api_site(bu ? "bdd_dump:bu" : "bdd_dump:td");
+	std::string text = bu ? c.h[i].bu->DumpToString(ser) : c.h[i].td->DumpToString(ser);
+	api_end(); observe(text);
+	mdl::Desc d; std::string err; TA shown;
+	if (!mdl::parse_timbuk_ref(text, d, &err)) { violation("C13.dump-well-formed", "bdd_dump", err); return; }
+	if (!mdl::desc_to_ta(d, "", shown)) throw Skip();
+	Blob b; b.bytes = text; b.kind = bu ? "bu" : "td"; b.model_lit = mdl::to_lit(shown); b.owner = s.client; blobs().push_back(b);
+}
+
 // ----------------------------------------------------------------- operations (C08)
 void operands_unchanged(const Step& s, BH& a, BH* b) {
 	api_end(); count(c_operand_rechecks); TA g; std::string why;
@@ -356,7 +381,8 @@ struct BG {
 	void value_ops(int k) {
 		for (int i = 0; i < k; ++i) {
 			bool bu = r.chance(1, 2); int& n = bu ? nbu : ntd; if (!n) continue; int h = any(bu);
-			switch (r.below(7)) {
+			switch (r.below(8)) {
+				case 7: out.push_back(gen::mk(c, "bdd_final", {h, bu, long(r.below(1000))})); break;
 				case 0: case 1: case 2: out.push_back(gen::mk(c, "bdd_copy", {h, bu})); ++n; break;
 				case 3: out.push_back(gen::mk(c, "bdd_assign", {h, any(bu), bu})); break;
 				case 4: if (n > 2) { int g = any(bu); if (g != h) { out.push_back(gen::mk(c, "bdd_move_assign", {h, g, bu})); --n; } } break;
@@ -420,6 +446,24 @@ Plan plan_C07(Rng& r, const std::string&) {
 	return p;
 }
 
+// a short history of BDD automata of one client (used by C13: what is dumped after operations must come back)
+std::vector<Step> bdd_history_program(Rng& r, int c, const gen::Pool& pool, int len) {
+	BG g(r, c); gen::TAOpts o; o.max_states = r.range(1, 4);
+	g.load(gen::gen_ta(r, pool, o), true); g.load(gen::gen_ta(r, pool, o), false);
+	for (int i = 0; i < len; ++i) {
+		uint64_t x = r.below(100); bool bu = r.chance(1, 2); int& n = bu ? g.nbu : g.ntd;
+		if (x < 20) g.load(gen::gen_ta(r, pool, o), bu);
+		else if (x < 35) g.value_ops(1);
+		else if (x < 70) { if (n) { g.out.push_back(gen::mk(c, "bdd_binary", {g.any(bu), g.any(bu), long(r.below(3)), bu, long(r.below(2))})); ++n; } }
+		else if (x < 85) { if (n) { g.out.push_back(gen::mk(c, "bdd_trim", {g.any(bu), long(r.below(2)), bu})); ++n; } }
+		else if (x < 93) { if (g.nbu) { g.out.push_back(gen::mk(c, "bdd_to_td", {g.any(true)})); ++g.ntd; } }
+		else { if (n) { g.out.push_back(gen::mk(c, "bdd_reindex", {g.any(bu), bu, long(r.below(100000))})); ++n; } }
+	}
+	int k = r.range(2, 5);
+	for (int i = 0; i < k; ++i) g.out.push_back(gen::mk(c, "bdd_dump", {long(r.below(16)), long(r.below(2))}));
+	return g.out;
+}
+
 Plan plan_C08(Rng& r, const std::string&) {
 	Plan p; p.env = gen::gen_env(r); gen::Pool pool = gen::make_pool(r, 5, r.chance(1, 8) ? 3 : 2);
 	int ncl = r.range(1, 3); std::vector<std::vector<Step>> progs;
@@ -428,6 +472,28 @@ Plan plan_C08(Rng& r, const std::string&) {
 		BG g(r, c); int len = r.range(5, 16);
 		gen::TAOpts o; o.max_states = r.range(1, 5);
 		g.load(gen::gen_ta(r, pool, o), true); g.load(gen::gen_ta(r, pool, o), false);
+		if (r.chance(1, 3)) {
+			// "diamond": two results derived from one base (they share its transition table when the library
+			// reuses it: union of sharing operands, UnionDisjointStates into the left operand's table, copies
+			// whose final sets were changed), then combined with each other and with the base
+			bool bu = r.chance(1, 2); int& n = bu ? g.nbu : g.ntd; o.sparse = false;
+			TA A = gen::gen_ta(r, pool, o), B = r.chance(1, 2) ? gen::derive_ta(r, pool, A, int(r.below(7))) : gen::gen_ta(r, pool, o), C = r.chance(1, 2) ? gen::derive_ta(r, pool, B, int(r.below(7))) : gen::gen_ta(r, pool, o);
+			int a = g.load(A, bu), x, y;
+			if (r.chance(1, 3)) {
+				// copies of the base with other final states
+				x = n; g.out.push_back(gen::mk(c, "bdd_copy", {a, bu})); ++n; g.out.push_back(gen::mk(c, "bdd_final", {x, bu, long(r.below(1000))}));
+				y = n; g.out.push_back(gen::mk(c, "bdd_copy", {a, bu})); ++n; g.out.push_back(gen::mk(c, "bdd_final", {y, bu, long(r.below(1000))}));
+			} else {
+				int b = g.load(B, bu), cc = g.load(C, bu);
+				x = n; g.out.push_back(gen::mk(c, "bdd_binary", {a, b, long(r.below(2)), bu, long(r.below(2))})); ++n;
+				y = n; g.out.push_back(gen::mk(c, "bdd_binary", {a, cc, long(r.below(2)), bu, long(r.below(2))})); ++n;
+			}
+			int k = r.range(1, 3);
+			for (int i = 0; i < k; ++i) {
+				int l = r.chance(1, 2) ? x : y, rr = r.chance(1, 4) ? a : (l == x ? y : x);
+				g.out.push_back(gen::mk(c, "bdd_binary", {l, rr, long(r.chance(2, 3) ? 2 : r.below(2)), bu, long(r.below(2))})); ++n;
+			}
+		}
 		if (r.chance(1, 3)) g.out.push_back(cli_step(r, c, 1 + long(r.below(2)), long(r.below(3)), mdl::to_lit(gen::gen_ta(r, pool, o)), mdl::to_lit(gen::gen_ta(r, pool, o))));      // vata -r bdd-.. load|union|isect [-p|-s]
 		for (int i = 0; i < len; ++i) {
 			uint64_t x = r.below(100); bool bu = r.chance(1, 2);
@@ -447,7 +513,7 @@ Plan plan_C08(Rng& r, const std::string&) {
 
 void register_bdd_ops() {
 	register_op("bdd_load", op_load); register_op("bdd_copy", op_copy); register_op("bdd_assign", op_assign);
-	register_op("bdd_move_assign", op_move_assign); register_op("bdd_move_ctor", op_move_ctor); register_op("bdd_destroy", op_destroy);
+	register_op("bdd_move_assign", op_move_assign); register_op("bdd_move_ctor", op_move_ctor); register_op("bdd_destroy", op_destroy); register_op("bdd_final", op_final); register_op("bdd_dump", op_dump);
 	register_op("bdd_binary", op_binary); register_op("bdd_trim", op_trim); register_op("bdd_to_td", op_to_td); register_op("bdd_reindex", op_reindex);
 	register_op("bdd_incl", op_incl);
 	register_abort_hook(abort_client); register_final_hook(final_check);
